@@ -111,3 +111,26 @@ fn c16_get_var_write_var() {
     assert!(arr[0] == b[0] && arr[n - 1] == b[n - 1]);
     kani::cover!(n == 8);
 }
+
+// vp: props=C16,C02,C01; tag=C16.spec.renderings; kind=complete; tier=quick
+// the closed forms the Verus units use (vdec / venc) are the same functions as the loop-form oracle, on the full domain
+#[kani::proof]
+#[kani::unwind(10)]
+fn c16_spec_renderings_agree() {
+    let arr: [u8; 9] = kani::any();
+    let len: usize = kani::any();
+    kani::assume(len <= 9);
+    assert!(spec_varint_dec_horner(&arr[..len]) == spec_varint_dec(&arr[..len]));
+    let x: u64 = kani::any();
+    kani::assume(x < TWO62);
+    let (a, n) = spec_varint_enc(x);
+    let (b, m) = spec_varint_enc_div(x);
+    assert!(n == m);
+    let mut i = 0;
+    while i < 8 { if i < n { assert!(a[i] == b[i]); } i += 1; }
+    // UnexpectedEnd carries at most 3 (used by the frame decoder's memo proof)
+    let mut r: &[u8] = &arr[..len];
+    if let Err(e) = VarInt::decode(&mut r) { assert!(e.0 <= 3); }
+    kani::cover!(n == 4);
+    kani::cover!(len == 8);
+}
